@@ -1284,7 +1284,7 @@ def popad(info):
     return e
 
 
-def call(info, a, b):
+def call(info, a, b, seg = None):
     e= []
     opmode, admode = info.opmode, info.admode
     if opmode == x86_afs.u16:
@@ -1295,11 +1295,25 @@ def call(info, a, b):
         myesp = esp
     int_cast = tab_uintsize[s]
 
-    c = ExprOp('+', myesp, ExprInt(int_cast(-s/8)))
-    e.append(ExprAff(myesp, c))
     if a.get_size() > s:
         # 16-bit operand size: the low word of the return address
         a = a[:s]
+    if seg is not None:
+        # far call (9A ptr16:16/32): cs is pushed in a slot of the operand
+        # size, then the return address; cs takes the selector
+        c_cs = ExprOp('+', myesp, ExprInt(int_cast(-s/8)))
+        c = ExprOp('+', myesp, ExprInt(int_cast(-2*s/8)))
+        old_cs = cs
+        if s == 32:
+            old_cs = ExprCompose([(cs, 0, 16), (ExprInt16(0), 16, 32)])
+        e.append(ExprAff(myesp, c))
+        e.append(ExprAff(ExprMem(c_cs, size=s), old_cs))
+        e.append(ExprAff(ExprMem(c, size=s), a))
+        e.append(set_eip(b))
+        e.append(ExprAff(cs, ExprInt16(int(seg.arg))))
+        return e
+    c = ExprOp('+', myesp, ExprInt(int_cast(-s/8)))
+    e.append(ExprAff(myesp, c))
     e.append(ExprAff(ExprMem(c, size=s), a))
     e.append(set_eip(b))
     return e
